@@ -5,20 +5,27 @@
 (* (-simulate), are printed as a script.  What happens inside (callback bodies, timer ticks) is determined   *)
 (* by the script and executed by the real code.                                                              *)
 EXTENDS MC_Rpc, Json
-CONSTANTS Depth, StrangerIds
+CONSTANTS Depth, StrangerIds,
+          Ops,          \* kinds of outside calls to generate: subset of {"req","notify","rsp","stranger","insync","inasync","respond","adv","cleanup"}
+          GenPeerIds    \* ids the peer uses for its own requests
 VARIABLE hist
 gvars == <<vars, hist>>
 Op(o, cb, body, k, raw) == [o |-> o, cb |-> cb, body |-> body, k |-> k, raw |-> raw]
+NAsync == Cardinality({i \in 1..Len(hist) : hist[i].o = "inasync"})
+Responded == {hist[i].k : i \in {j \in 1..Len(hist) : hist[j].o = "respond"}}
 H(op) == hist' = Append(hist, op)
 Outside == Len(hist) < Depth /\ Idle /\ ~closed /\ ~TickDue
 GInit == Init /\ hist = <<>>
 GNext ==
-  \/ /\ Outside /\ \E b \in Bodies : DoRequest(b, stack) /\ H(Op("req", TRUE, b, 0, ""))
-  \/ /\ Outside /\ UNCHANGED vars /\ H(Op("req", FALSE, <<>>, 0, ""))
-  \/ /\ Outside /\ \E id \in 1..nextId : DoResponse(id, stack) /\ H(Op("rsp", FALSE, <<>>, id, ""))
-  \/ /\ Outside /\ \E s \in StrangerIds : UNCHANGED vars /\ H(Op("rsp", FALSE, <<>>, 0, s))
-  \/ /\ Len(hist) < Depth /\ Advance /\ H(Op("adv", FALSE, <<>>, 0, ""))
-  \/ /\ Len(hist) < Depth /\ Cleanup /\ H(Op("cleanup", FALSE, <<>>, 0, ""))
+  \/ /\ "req" \in Ops /\ Outside /\ \E b \in Bodies : DoRequest(b, stack) /\ H(Op("req", TRUE, b, 0, ""))
+  \/ /\ "notify" \in Ops /\ Outside /\ UNCHANGED vars /\ H(Op("req", FALSE, <<>>, 0, ""))
+  \/ /\ "rsp" \in Ops /\ Outside /\ \E id \in 1..nextId : DoResponse(id, stack) /\ H(Op("rsp", FALSE, <<>>, id, ""))
+  \/ /\ "stranger" \in Ops /\ Outside /\ \E s \in StrangerIds : UNCHANGED vars /\ H(Op("rsp", FALSE, <<>>, 0, s))
+  \/ /\ "insync" \in Ops /\ Outside /\ \E p \in GenPeerIds : UNCHANGED vars /\ H(Op("insync", FALSE, <<>>, p, ""))
+  \/ /\ "inasync" \in Ops /\ Outside /\ \E p \in GenPeerIds : InAsync(p) /\ H(Op("inasync", FALSE, <<>>, p, ""))
+  \/ /\ "respond" \in Ops /\ Outside /\ \E j \in (1..NAsync) \ Responded : UNCHANGED vars /\ H(Op("respond", FALSE, <<>>, j, ""))
+  \/ /\ "adv" \in Ops /\ Len(hist) < Depth /\ Advance /\ H(Op("adv", FALSE, <<>>, 0, ""))
+  \/ /\ "cleanup" \in Ops /\ Len(hist) < Depth /\ Cleanup /\ H(Op("cleanup", FALSE, <<>>, 0, ""))
   \/ /\ (BodyReq \/ BodyRsp \/ CbEnd \/ Tick \/ TmoFire \/ TmoSkip \/ TickEnd) /\ hist' = hist
 GSpec == GInit /\ [][GNext]_gvars
 Emit == IF Len(hist) >= Depth /\ Idle /\ ~TickDue
